@@ -131,7 +131,7 @@ case("F38 cohort non-contiguous along two separated block axes", f38, lambda r: 
 case("F39 unsorted axis tuple on a dask array", lambda: groupby_reduce(da.from_array(np.arange(24.).reshape(4, 6), chunks=((2, 2), (3, 3))), np.array([[0, 1, 0, 1, 2, 1]] * 2 + [[2, 0, 2, 3, 3, 3]] * 2), func="sum", axis=(1, 0))[0].compute().tolist(), lambda r: r == [48.0, 36.0, 78.0, 114.0])
 
 # F40
-case("F40 argmax of datetime64 data", lambda: groupby_reduce(np.array(["2001-01-01", "2001-01-05", "2001-01-03", "2001-01-02"], "M8[ns]"), np.array([0, 0, 1, 1]), func="argmax")[0].tolist(), lambda r: r == [1, 2])
+case("F40 argmax of datetime64 data", lambda: (lambda r: (r.dtype.kind, r.tolist()))(groupby_reduce(np.array(["2001-01-01", "2001-01-05", "2001-01-03", "2001-01-02"], "M8[ns]"), np.array([0, 0, 1, 1]), func="argmax")[0]), lambda r: r == ("i", [1, 2]))
 # F41
 case("F41 nanfirst, flox engine, size-1 label dimension", lambda: groupby_reduce(np.array([[np.nan, 2.0], [3.0, 4.0]]), np.array([[0, 0]]), func="nanfirst", engine="flox")[0].tolist(), lambda r: r == [2.0])
 # F42
@@ -140,7 +140,17 @@ def f42():
     return groupby_reduce(da.from_array(np.arange(6.), chunks=2), np.array([0, 1, 0, 1, 2, 2]), func="argmax", reindex=ReindexStrategy(blockwise=True))[0].compute()
 
 
-case("F42 ReindexStrategy(blockwise=True) with an arg reduction", f42, lambda r: False, refusal_ok=True)
+# (on the original snapshot this request dies earlier, in dask's adjust_chunks ValueError of F33; the TypeError shows once F33 is repaired:
+#  the case accepts only the refusal flox itself documents for reindex=True)
+def f42_strict():
+    try:
+        f42()
+    except NotImplementedError:
+        return "refused"
+    return "computed"
+
+
+case("F42 ReindexStrategy(blockwise=True) with an arg reduction", f42_strict, lambda r: r == "refused")
 
 # F43
 case("F43 any with a negative fill, finalizer reindex", lambda: groupby_reduce(da.from_array(np.arange(6.) > 2, chunks=2), np.array([1, 1, 2, 2, 5, 5]), func="any", expected_groups=np.array([0, 1, 2, 3]), fill_value=-1, method="map-reduce", reindex=False)[0].compute().tolist(), lambda r: r == [-1, 0, 1, -1])
